@@ -34,7 +34,9 @@ def normalise(raw_events):
         key2r = {}
         cid = {}
         taken = set()
-        local2b = {e["local"]: e["b"] for e in rnd if e["ev"] == "BackendConn"}
+        # (a local port may be in use towards several nodes at once: a backend connection is identified by its local address
+        # AND its node)
+        local2b = {}  # filled as the connections appear (a closed connection's address may be used again later)
         prepmap = {}
         anshash = {}
         keylist = {}
@@ -73,6 +75,8 @@ def normalise(raw_events):
         early_conns = []
         for e in rnd:
             ev = e["ev"]
+            if ev == "BackendConn":
+                local2b[(e.get("local"), e.get("host"))] = e["b"]
             if ev == "BackendConn":
                 if e["b"] in registered:
                     continue
@@ -166,7 +170,7 @@ def normalise(raw_events):
                     out.append({"ev": "SendFail", "r": r, "h": h, "why": e["why"]})
             elif ev == "H.prepstore":
                 r = byord(e)
-                b = local2b.get(e["local"])
+                b = local2b.get((e["local"], (e.get("host") or "").split(":")[0]))
                 if r and b:
                     prepmap[(b, e["bstream"])] = r
             elif ev == "H.onclose":
